@@ -56,6 +56,8 @@ UNIT = {
             ("replace", "&src_bytes[1..]", "slice_from(src_bytes, 1)", "R6"),
             ("replace", "&src_bytes[string.len()..]", "slice_from(src_bytes, string.len())", "R6"),
             ("replace", "src_bytes.is_empty()", "(src_bytes.len() == 0)", "R6")]),
+        {"block": "struct", "header": r"struct HeapWriter < 'a >", "file": F_H, "rewrites": ["strip_type_head"] + R7},
+        m("Heap", "reserve"),
         m("ReservedHeapSection", "cell_len"),
         m("ReservedHeapSection", "push_cell"),
         m("ReservedHeapSection", "push_pstr_segment", extra=[("replace", "src: &str", "src: StrRef", "R7")]),
